@@ -7880,14 +7880,18 @@ class SFTPServer:
 
         """
 
-        path = os.readlink(_to_local_path(self.map_path(path)))
+        linkpath = _to_local_path(self.map_path(path))
+        path = os.readlink(linkpath)
 
         if sys.platform == 'win32' and \
                 path.startswith('\\\\?\\'): # pragma: no cover
             path = path[4:]
 
         if self._chroot:
-            path = os.path.realpath(path)
+            # A relative target is relative to the directory the link
+            # is in, and not to the current directory of the server
+            path = os.path.realpath(os.path.join(os.path.dirname(linkpath),
+                                                 path))
 
         return self.reverse_map_path(_from_local_path(path))
 
